@@ -29,6 +29,8 @@ type Obligation struct {
 	Path   []string `json:"path,omitempty"`
 	// NonTrivial: the decision required a path / flow / call-graph query.
 	NonTrivial bool `json:"nontrivial,omitempty"`
+	// Known: text of the matching entry of known_findings.json, if any.
+	Known string `json:"known_finding,omitempty"`
 }
 
 // Ctx collects obligations for one property on one program.
@@ -168,7 +170,7 @@ func (c *Ctx) Finish(kf *KnownFindings) *Outcome {
 			continue
 		}
 		if what, ok := known[o.Key]; ok && o.Status == Violated {
-			o.Detail = o.Detail + " [known finding: " + what + "]"
+			o.Known = what
 			out.Known = append(out.Known, o)
 			continue
 		}
